@@ -47,7 +47,7 @@ def run_mc(ctx, name, cfg, props=ALL_PROPS, timeout=900, **kw):
 RE_EDGE = re.compile(r'^<<"EDGE", ([01]), "(.*)">>$')
 
 
-def gen_schedules(ctx, name, cfg, depth=0, simulate=None, timeout=900, **kw):
+def gen_schedules(ctx, name, cfg, depth=0, simulate=None, timeout=900, cap=None, **kw):
     """Run QueueGen; return de-duplicated schedules (lists of op dicts).
     Exhaustive mode (depth=0): one schedule per edge of the abstract graph, with the self-loop operations of a
     state chained into one schedule and schedules that are prefixes of others dropped."""
@@ -59,24 +59,31 @@ def gen_schedules(ctx, name, cfg, depth=0, simulate=None, timeout=900, **kw):
     if simulate:
         extra = ["-simulate", "num=%d" % simulate, "-depth", str(depth + 1), "-seed", str(ctx.seed)]
         workers = 1
-    r = vf.mc_run(ctx, "gen-" + name, "QueueGen", consts, plain, spec="GenSpec", view=None if simulate else "View",
-                  timeout=timeout, extra=extra, workers=workers)
-    if r["error"] or (not r["ok"] and not simulate):
-        raise vf.Infra("QueueGen/%s failed: %s\n%s" % (name, r["error"], "\n".join(r["out"].splitlines()[-30:])))
     edges = 0
     loops = {}      # path (tuple of op-json) -> list of loop ops
     scheds = set()
-    for line in r["out"].splitlines():
+    intern = {}     # one string object per distinct operation (schedules share long prefixes)
+
+    def sink(line):
+        nonlocal edges
+        if not line.startswith('<<"EDGE"'):
+            return False
         m = RE_EDGE.match(line)
         if not m:
-            continue
+            return False
         edges += 1
         ops = json.loads(json.loads('"' + m.group(2) + '"'))
-        key = tuple(json.dumps(o, sort_keys=True) for o in ops)
+        key = tuple(intern.setdefault(x, x) for x in (json.dumps(o, sort_keys=True) for o in ops))
         if m.group(1) == "1" and not simulate:
             loops.setdefault(key[:-1], []).append(key[-1])
         else:
             scheds.add(key)
+        return True
+
+    r = vf.mc_run(ctx, "gen-" + name, "QueueGen", consts, plain, spec="GenSpec", view=None if simulate else "View",
+                  timeout=timeout, extra=extra, workers=workers, line_sink=sink)
+    if r["error"] or (not r["ok"] and not simulate):
+        raise vf.Infra("QueueGen/%s failed: %s\n%s" % (name, r["error"], "\n".join(r["out"].splitlines()[-30:])))
     for path, lops in loops.items():
         scheds.add(path + tuple(sorted(lops)))
     # drop schedules that are proper prefixes of another schedule
@@ -86,6 +93,11 @@ def gen_schedules(ctx, name, cfg, depth=0, simulate=None, timeout=900, **kw):
         if i + 1 < len(ordered) and ordered[i + 1][:len(s)] == s:
             continue
         keep.append(s)
+    del ordered, scheds, loops
+    r["total_schedules"] = len(keep)
+    if cap and len(keep) > cap:
+        import random
+        keep = random.Random(ctx.seed).sample(keep, cap)
     ctx.cov["mc_runs"].append({"name": "gen-" + name, "distinct": r["distinct"], "generated": r["generated"], "edges": edges,
                                "schedules": len(keep), "secs": r["secs"]})
     ctx.cov["states"] += r["distinct"]
@@ -241,6 +253,15 @@ def replay(ctx, path):
         print("replay: trace accepted (no divergence)")
 
 
+def drop_traces(results):
+    """Validated trace shards live in /dev/shm (memory): remove them once their divergences are triaged."""
+    for r in results:
+        try:
+            os.remove(r["file"])
+        except OSError:
+            pass
+
+
 GEN_CAP_QUICK = 20000
 GEN_CAP_THOROUGH = 120000
 
@@ -269,16 +290,14 @@ def run_plan(ctx, plan, rule, assumptions=(), reference=False, level="model_chec
         kw = dict(kw)
         simulate = kw.pop("simulate", None)
         depth = kw.pop("depth", 0)
-        scheds, edges, r = gen_schedules(ctx, name, cfg, depth=depth, simulate=simulate, **kw)
-        lap("GEN %s (%d edges, %d schedules)" % (name, edges, len(scheds)))
+        # the executor handles ~500 traces/s: a tier stays inside its time budget with a seeded sample of the edge schedules
+        cap = plan.get("gen_cap", GEN_CAP_QUICK if ctx.quick else GEN_CAP_THOROUGH)
+        scheds, edges, r = gen_schedules(ctx, name, cfg, depth=depth, simulate=simulate, cap=cap, **kw)
+        total = r["total_schedules"]
+        lap("GEN %s (%d edges, %d schedules)" % (name, edges, total))
         if not scheds:
             raise vf.Infra("generator %s produced no schedules" % name)
-        cap = plan.get("gen_cap", GEN_CAP_QUICK if ctx.quick else GEN_CAP_THOROUGH)
-        if len(scheds) > cap:
-            # the executor handles ~500 traces/s: keep the tier inside its time budget with a seeded sample of the edge schedules
-            import random
-            total = len(scheds)
-            scheds = random.Random(ctx.seed).sample(scheds, cap)
+        if total > cap:
             ctx.notes.append("GEN %s: %d of %d edge schedules executed (seeded sample, cap %d)" % (name, cap, total, cap))
             ctx.count("gen_schedules_not_executed", total - cap)
         sf = os.path.join(ctx.scratch, "gen-%s.ndjson" % name)
@@ -286,13 +305,16 @@ def run_plan(ctx, plan, rule, assumptions=(), reference=False, level="model_chec
         ctx.count("gen_edges", edges)
         ctx.count("gen_schedules", len(scheds))
         ctx.sample({"kind": "TLC-generated schedule (%s)" % name, "cfg": sched_cfg(cfg), "ops": scheds[len(scheds) // 2]})
+        del scheds
         res, info = execute_and_validate(ctx, sf, "gen-" + name, sqlite_sample=sample, reference=reference)
         lap("execute+TV gen-%s (%d traces, %d events)" % (name, info["traces"], info["events"]))
         triage(ctx, res, sf, reference=reference)
+        drop_traces(res)
     for i, (tag, profile, n, ops, kw) in enumerate(plan.get("drv", [])):
         res, info, sched = drive_and_validate(ctx, tag, profile, n, ops, ctx.seed * 1000 + i, reference=reference, **kw)
         lap("drive+TV %s (%d traces, %d events)" % (tag, info["traces"], info["events"]))
         triage(ctx, res, sched, reference=reference)
+        drop_traces(res)
         with open(sched) as f:
             s = json.loads(f.readline())
             s["ops"] = s["ops"][:10]
